@@ -5,7 +5,9 @@ cd /verif || exit 2
 PAR=${1:-2}
 export VERIF_WORKERS=${VERIF_WORKERS:-8}
 list=$(mktemp)
-for d in seeded/*/; do p=$(basename $d | cut -c1-3); echo "$d/patch.diff $p" ; done > $list
+# patch-head.diff: the same change ported by hand to the current /repo HEAD (the code the
+# original patch.diff touches was repaired since)
+for d in seeded/*/; do p=$(basename $d | cut -c1-3); f=patch.diff; [ -f $d/patch-head.diff ] && f=patch-head.diff; echo "$d$f $p" ; done > $list
 for f in mutants/*.patch; do p=$(basename $f | cut -c1-3); echo "$f $p"; done >> $list
 # the symtable mutant breaks both C03 and C18
 echo "mutants/C18-m1-unsorted-find.patch C03" >> $list
